@@ -20,7 +20,7 @@ import sys
 import threading
 import traceback
 
-from .. import repo
+from .. import bigframe, repo
 
 
 class Divergence(Exception):
@@ -123,7 +123,7 @@ def _thread_body(sched, tid, body, results, tracer):
     try:
         sys.settrace(tracer)
         try:
-            results[tid] = ("ok", body())
+            results[tid] = ("ok", bigframe.call(body))  # one big frame per thread: no data-stack chunk churn
         finally:
             sys.settrace(None)
     except Divergence as ex:
